@@ -16,7 +16,8 @@
 EXTENDS Naturals, Integers, Sequences, FiniteSets, TLC, Json
 CONSTANTS MaxCols, MaxActions, Small, Emit
 
-Fields == IF Small THEN {"a", "e"} ELSE {"a", "b", "e"}      \* "e" is an enum field (supports modifiers)
+Fields == IF Small THEN {"e", "c(x)"} ELSE {"a", "b", "e", "c(x)"}      \* "e" is an enum field (supports modifiers);
+                                                                         \* "c(x)": a field name with parentheses (sql style)
 Mods(f) == IF f = "e" THEN {"", "val", "name", "full"} ELSE {""}
 Ranges == IF Small THEN { <<3, 3>>, <<1, 6>> } ELSE { <<3, 3>>, <<0, 0>>, <<1, 6>>, <<2, 20>> }
 ColPool == { [f |-> f, mod |-> m, brk |-> b, min |-> r[1], max |-> r[2]] :
